@@ -4,6 +4,7 @@ import Taskpool.Inv.Seal
 import Taskpool.Inv.EndOK
 import Taskpool.Inv.Emptied
 import Taskpool.Inv.Elem
+import Taskpool.Inv.Blame
 import Taskpool.Model.Bits
 /-! Boolean versions of the invariants of `Inv/Tame.lean`, evaluated by the driver on every model state the
 implementation was just shown to agree with.  They restate the `Prop` definitions clause by clause; they are a
@@ -144,6 +145,6 @@ def invBits3 (w w' : World) (fromCaller : Bool) : String :=
     b (p'.slotBit ((w'.cfgs[i]?.map (·.size0)).getD .inf)) ++ b p'.phaseBit ++ b (!p'.lost) ++ b p'.regBit ++
     b (p'.lifeBit && p'.groupsBit) ++ b p'.mapBit ++ b p'.accBit ++ b p'.flushBit ++ b p'.wakeBit ++
     b p'.cancBit ++ b (snapKeptBit p p') ++ b (p.snapTakenBit p' fromCaller) ++ b p'.wantBit ++ b (w'.schedBit i p') ++
-    b p'.sealBit ++ b p'.endBit ++ b p'.emptiedBit ++ b p'.elemBit)
+    b p'.sealBit ++ b p'.endBit ++ b p'.emptiedBit ++ b p'.elemBit ++ b p'.blameBit)
 
 end Taskpool
